@@ -60,3 +60,82 @@ Theorem C02_is_multiple_of : forall a b, b <> 0 ->
   exists v, is_multiple_of_spec a b = Ok v /\ (v = true <-> Z.rem a b = 0) /\ (v = true <-> exists k, a = k * b).
 Proof. exact is_multiple_of_spec_iff. Qed.
 Print Assumptions C02_is_multiple_of.
+
+(** ** word-level as-is models of the division kernels (any word size w > 0, any length);
+       num-modular's reciprocal division and the multiplication kernel enter through their contracts *)
+From Dashu Require Import Base.Words Int.DivWordModel Int.DivWordProofs Int.DivSimpleProofs Int.DivLargeProofs
+  Int.DivDCProofs Int.DivReprProofs Int.DivContracts Int.DivWordInst Int.DivWordInstProofs.
+
+(** div_by_word_in_place: the rhs = 1 and power-of-two shortcuts and the normalised 2-by-1 loop *)
+Theorem C02_div_by_word : forall w, 0 < w -> forall div2by1, contract_2by1 w div2by1 ->
+  forall ws rhs, wf w ws -> 0 < rhs < B w -> forall q r, div_by_word w div2by1 ws rhs = (q, r) ->
+  value w q = value w ws / rhs /\ r = value w ws mod rhs /\ wf w q /\ length q = length ws.
+Proof. exact div_by_word_correct. Qed.
+Print Assumptions C02_div_by_word.
+
+Theorem C02_rem_by_word : forall w, 0 < w -> forall div1by1 div2by1, contract_1by1 w div1by1 -> contract_2by1 w div2by1 ->
+  forall ws rhs, wf w ws -> ws <> [] -> 0 < rhs < B w -> rem_by_word w div1by1 div2by1 ws rhs = value w ws mod rhs.
+Proof. exact rem_by_word_correct. Qed.
+Print Assumptions C02_rem_by_word.
+
+(** div_by_dword_in_place: the power-of-two path (2^64 .. 2^127 for w = 64) and the 3-by-2 / 4-by-2 chunks *)
+Theorem C02_div_by_dword : forall w, 0 < w -> forall div3by2 div4by2, contract_3by2 w div3by2 -> contract_4by2 w div4by2 ->
+  forall ws rhs, wf w ws -> (2 <= length ws)%nat -> B w <= rhs < B w * B w ->
+  forall q r, div_by_dword w div3by2 div4by2 ws rhs = (q, r) ->
+  value w q = value w ws / rhs /\ r = value w ws mod rhs /\ wf w q /\ length q = length ws.
+Proof. exact div_by_dword_correct. Qed.
+Print Assumptions C02_div_by_dword.
+
+(** Knuth D, one quotient word (div_rem_highest_word): 3-by-2 estimate, multiply-subtract, one add-back *)
+Theorem C02_knuth_step : forall w, 0 < w -> forall div3by2, contract_3by2 w div3by2 ->
+  forall top lo rhs, wf w lo -> wf w rhs -> (2 <= length rhs)%nat -> (length rhs <= length lo)%nat -> 0 <= top < B w ->
+  normalized_top w rhs ->
+  let n := length rhs in let k := (length lo - n)%nat in
+  top * B w ^ Z.of_nat n + value w (skipn k lo) < value w rhs * B w ->
+  forall q lo', div_rem_highest_word w div3by2 top lo rhs = (q, lo') ->
+  0 <= q < B w /\ wf w lo' /\ length lo' = length lo /\ firstn k lo' = firstn k lo /\
+  q = (top * B w ^ Z.of_nat n + value w (skipn k lo)) / value w rhs /\
+  value w (skipn k lo') = (top * B w ^ Z.of_nat n + value w (skipn k lo)) mod value w rhs.
+Proof. exact div_rem_highest_word_correct. Qed.
+Print Assumptions C02_knuth_step.
+
+(** the whole schoolbook division simple::div_rem_in_place: lhs = [lhs % rhs, lhs / rhs] + carry *)
+Theorem C02_schoolbook : forall w, 0 < w -> forall div3by2, contract_3by2 w div3by2 ->
+  forall lhs rhs, wf w lhs -> wf w rhs -> (2 <= length rhs)%nat -> (length rhs <= length lhs)%nat -> normalized_top w rhs ->
+  forall res carry, simple_div_rem w div3by2 lhs rhs = (res, carry) -> kernel_post w lhs rhs res carry.
+Proof. exact simple_div_rem_correct. Qed.
+Print Assumptions C02_schoolbook.
+
+(** the algorithm switch (THRESHOLD_SIMPLE) with Burnikel-Ziegler behind it: every result satisfies the same contract *)
+Theorem C02_div_rem_in_place_sound : forall w, 0 < w -> forall div3by2, contract_3by2 w div3by2 ->
+  forall mul_sub, contract_mul_sub w mul_sub -> forall T, (2 <= T)%nat ->
+  forall fuel lhs rhs res c, kernel_pre w lhs rhs ->
+  div_rem_in_place w div3by2 mul_sub T fuel lhs rhs = Ok (res, c) -> kernel_post w lhs rhs res c.
+Proof. exact div_rem_in_place_sound. Qed.
+Print Assumptions C02_div_rem_in_place_sound.
+
+(** normalisation shift, top-word quotient carry, shift back of the remainder (div_rem_large) *)
+Theorem C02_div_rem_large_sound : forall w, 0 < w -> forall div3by2, contract_3by2 w div3by2 ->
+  forall mul_sub, contract_mul_sub w mul_sub -> forall T, (2 <= T)%nat ->
+  forall fuel lhs rhs q r, wf w lhs -> wf w rhs -> (2 <= length rhs)%nat -> (length rhs <= length lhs)%nat ->
+  0 < highest_word w rhs ->
+  div_rem_large w div3by2 mul_sub T fuel lhs rhs = Ok (q, r) ->
+  value w q = value w lhs / value w rhs /\ value w r = value w lhs mod value w rhs /\
+  wf w q /\ wf w r /\ length r = length rhs /\ length q = (length lhs - length rhs + 1)%nat.
+Proof. exact DivReprProofs.div_rem_large_sound. Qed.
+Print Assumptions C02_div_rem_large_sound.
+
+(** DivRem of two magnitudes through the whole size dispatch of div_ops.rs::repr *)
+Theorem C02_repr_div_rem_sound : forall w, 0 < w -> forall div2by1 div3by2 div4by2,
+  contract_2by1 w div2by1 -> contract_3by2 w div3by2 -> contract_4by2 w div4by2 ->
+  forall mul_sub, contract_mul_sub w mul_sub -> forall T, (2 <= T)%nat ->
+  forall a b q r, 0 <= a -> 0 < b ->
+  repr_div_rem w div2by1 div3by2 div4by2 mul_sub T a b = Ok (q, r) -> q = a / b /\ r = a mod b.
+Proof. exact repr_div_rem_sound. Qed.
+Print Assumptions C02_repr_div_rem_sound.
+
+(** the contracts are satisfiable: for the instance the oracle runs the statement is unconditional *)
+Theorem C02_repr_div_rem_instance : forall w, 0 < w -> forall a b q r, 0 <= a -> 0 < b ->
+  i_repr_div_rem w a b = Ok (q, r) -> q = a / b /\ r = a mod b.
+Proof. exact i_repr_div_rem_sound. Qed.
+Print Assumptions C02_repr_div_rem_instance.
